@@ -67,17 +67,19 @@ cholmod_tril(int dim, cholmod_common *c)
 }
 
 static double
-bspline(const double *knots, double x, int i, int n)
+bspline(const double *knots, double x, int i, int n, int left)
 {
 	double a = 0, b = 0;
 	
 	if (n == 0) {
 		/*
 		 * Special case the 0th order case, where B-Splines
-		 * are constant functions from one knot to the next.
+		 * are constant functions from one knot to the next,
+		 * continuous from the right or (left != 0) from the left.
 		 */
 		
-		if (x >= knots[i] && x < knots[i+1])
+		if (left ? (x > knots[i] && x <= knots[i+1]) :
+		    (x >= knots[i] && x < knots[i+1]))
 			return 1.0;
 		else
 			return 0.0;
@@ -90,10 +92,10 @@ bspline(const double *knots, double x, int i, int n)
 	 * would give 0/0.
 	 */
 	if (knots[i+n] != knots[i])
-		a = (x - knots[i])*bspline(knots, x, i, n-1) /
+		a = (x - knots[i])*bspline(knots, x, i, n-1, left) /
 		    (knots[i+n] - knots[i]);
 	if (knots[i+n+1] != knots[i+1])
-		b = (knots[i+n+1] - x)*bspline(knots, x, i+1, n-1) /
+		b = (knots[i+n+1] - x)*bspline(knots, x, i+1, n-1, left) /
 		    (knots[i+n+1] - knots[i+1]);
 	
 	return a + b;
@@ -120,12 +122,19 @@ bsplinebasis(const double* knots, size_t nknots, const double* x, size_t npts, i
 	nsplines = nknots-order-1;
 	basis = cholmod_l_allocate_dense(npts, nsplines, npts, CHOLMOD_REAL, c);
 
-	/* CHOLMOD dense matrices are in column-major order */
+	/*
+	 * CHOLMOD dense matrices are in column-major order.
+	 *
+	 * Like the pointwise evaluation routines (bsplvb_simple() etc.), take
+	 * the basis continuous from the right below the upper end of the
+	 * fully supported range, knots[nsplines], and from the left from there
+	 * upwards, so that the last knot belongs to the last interval.
+	 */
 	k = 0;
 	for (col = 0; col < nsplines; col++) 
 		for (row = 0; row < npts; row++, k++) 
 			((double *)(basis->x))[k] = bspline(knots, x[row],
-			    col, order);
+			    col, order, x[row] >= knots[nsplines]);
 
 	sbasis = cholmod_l_dense_to_sparse(basis, 1, c);
 	cholmod_l_free_dense(&basis, c);
